@@ -68,6 +68,11 @@ pub struct FmtCase {
     pub pieces: Vec<Piece>,
     pub template: bool,
     pub script: Vec<WOp>,
+    /// 0 = a format string with run-time arguments (see `template`); k > 0 = the k-th of the
+    /// fixed argument-free format strings (`Arguments::as_str()` is `Some` for those: a writer
+    /// may be tempted to treat them differently)
+    #[serde(default)]
+    pub literal: u8,
 }
 
 #[derive(Debug, Clone, Copy, PartialEq, Eq, Serialize, Deserialize)]
@@ -323,7 +328,7 @@ fn piece() -> impl Strategy<Value = Piece> {
 }
 
 pub fn fmt_case() -> impl Strategy<Value = FmtCase> {
-    (prop::collection::vec(piece(), 0..8), prop::bool::weighted(0.25), wscript()).prop_map(|(pieces, template, script)| FmtCase { pieces, template, script })
+    (prop::collection::vec(piece(), 0..8), prop::bool::weighted(0.25), wscript(), prop_oneof![3 => Just(0u8), 1 => 1u8..=super::N_LITERALS]).prop_map(|(pieces, template, script, literal)| FmtCase { pieces, template, script, literal })
 }
 
 pub fn print_case() -> impl Strategy<Value = PrintCase> {
